@@ -117,9 +117,15 @@ def insert_noise(src, seed=0):
     """Like insert_passes, but the inserted statement is an assignment to a
     fresh local (`_trace_rn = None`), which no canonicalisation removes: the
     stand-in for an added log line or counter."""
-    return insert_passes(src, seed, make=lambda: ast.Assign(
-        targets=[ast.Name(id="_trace_rn", ctx=ast.Store())],
-        value=ast.Constant(value=None)))
+    counter = [0]
+
+    def make():
+        counter[0] += 1
+        return ast.Assign(
+            targets=[ast.Name(id=f"_trace{counter[0]}_rn", ctx=ast.Store())],
+            value=ast.Constant(value=None))
+
+    return insert_passes(src, seed, make=make)
 
 
 def insert_passes(src, seed=0, make=ast.Pass):
